@@ -47,7 +47,7 @@ struct C18 : Property
 	std::vector<std::string> probes() const override
 	{
 		return {"W1.last_put_by_non_creator_thread", "W1.switch_inside_put_before_destroy", "W1.container_children_destroyed_once", "W1.three_or_more_threads", "W1.thread_holds_child_of_shared_container", "W3.two_threads_past_unset_test_before_cas",
-		        "W3.seed_source_returned_minus_one", "W3.lost_cas_thread_uses_winner_seed", "W3.default_hash_selected_again_after_first_use", "W1.owner_replaces_userdata_before_its_put", "W4.threads_are_first_users_in_a_fresh_process", "W4.disjoint_trees_no_conflict", "sched.pct_policy", "sched.random_policy", "atomics.seen"};
+		        "W3.seed_source_returned_minus_one", "W3.lost_cas_thread_uses_winner_seed", "W3.default_hash_selected_again_after_first_use", "W1.owner_replaces_userdata_before_its_put", "W4.threads_are_first_users_in_a_fresh_process", "W1.same_node_readded_to_private_container", "W1.deep_copy_of_shared_node", "W4.disjoint_trees_no_conflict", "sched.pct_policy", "sched.random_policy", "atomics.seen"};
 	}
 	std::vector<std::string> probes_expected_zero() const override { return {"W1.switch_between_load_and_store_of_counter"}; }
 	std::vector<std::string> real_components() const override
@@ -103,7 +103,7 @@ struct C18 : Property
 				{
 					Op o;
 					o.kind = "t";
-					o.a = {t, (int64_t)r.below(4), (int64_t)r.below((uint64_t)nnodes)}; // action 0 get, 1 put, 2 read, 3 replace the userdata (designated owner only)
+					o.a = {t, (int64_t)r.below(6), (int64_t)r.below((uint64_t)nnodes)}; // action 0 get, 1 put, 2 read, 3 replace the userdata (designated owner only), 4 keep a reference in a thread-private object (re-add), 5 deep copy
 					p.ops.push_back(o);
 				}
 			}
@@ -158,7 +158,9 @@ struct C18 : Property
 		int minus_one_left = 0;
 		int threads_past_test = 0;
 		int nthreads = 1;
-		bool retagged = false;
+		bool retagged = false, readded = false, copied = false;
+		std::vector<std::vector<int>> held; // per thread, per node: reference held by the thread's private container
+		std::vector<bool> in_priv;          // node was ever placed in a private container (it may die inside that container's teardown)
 	};
 	static Shared *g_sh;
 
@@ -177,6 +179,8 @@ struct C18 : Property
 		int outstanding = 0;
 		for (auto &o : s.owned)
 			outstanding += o[n];
+		for (auto &h : s.held)
+			outstanding += h[n];
 		if (outstanding > 0)
 			s.errors.push_back("C18:destroyed-while-referenced|node " + std::to_string(n) + " was destroyed by thread " + std::to_string(simthr_self()) + " while " +
 			                   std::to_string(outstanding) + " reference(s) were still held by threads that had not started to release them");
@@ -190,6 +194,8 @@ struct C18 : Property
 	{
 		Shared &s = *g_sh;
 		int t = ((ThreadArg *)argp)->t;
+		struct json_object *priv = nullptr; // thread-private container (action 4)
+		std::vector<bool> priv_has(s.nodes.size(), false);
 		for (auto &step : s.script[(size_t)t])
 		{
 			int action = step[0];
@@ -217,6 +223,38 @@ struct C18 : Property
 						                   std::to_string(s.destroyed[n]) + " time(s)");
 				}
 			}
+			else if (action == 4)
+			{
+				if (s.owned[(size_t)t][n] <= 0)
+					continue;
+				// a thread-private object keeps its own reference to the shared node; adding the same node again under the same key is
+				// a replace whose old and new value are the same node: one reference in, one out, through the container's own paths
+				if (!priv)
+					priv = LIB(json_object_new_object());
+				std::string key = "n" + std::to_string(n);
+				bool had = priv_has[n];
+				if (LIB(json_object_object_add(priv, key.c_str(), json_object_get(s.nodes[n]))) == 0)
+				{
+					if (!had)
+					{
+						priv_has[n] = true;
+						s.held[(size_t)t][n] = 1; // the private container's own reference (not available to this thread's put actions)
+						s.in_priv[n] = true;
+					}
+					s.readded = s.readded || had;
+				}
+			}
+			else if (action == 5 && (int)(n % (size_t)s.nthreads) == t)
+			{
+				// (by the designated owner only: the copy reads the userdata fields that the same owner may re-install with action 3)
+				if (s.owned[(size_t)t][n] <= 0)
+					continue;
+				// copying a node one holds a reference to only reads it
+				struct json_object *cp = nullptr;
+				if (LIB(json_object_deep_copy(s.nodes[n], &cp, nullptr)) == 0 && cp)
+					LIBV(json_object_put(cp));
+				s.copied = true;
+			}
 			else if (action == 3 && (int)(n % (size_t)s.nthreads) == t)
 			{
 				if (s.owned[(size_t)t][n] <= 0)
@@ -239,6 +277,14 @@ struct C18 : Property
 				else if (json_object_get_type(s.nodes[n]) == json_type_array)
 					(void)LIB(json_object_array_length(s.nodes[n]));
 			}
+		}
+		// the private container goes first: its teardown releases the references it holds
+		if (priv)
+		{
+			for (size_t n = 0; n < s.nodes.size(); n++)
+				if (priv_has[n])
+					s.held[(size_t)t][n] = 0; // from here on these references are being released
+			LIBV(json_object_put(priv));
 		}
 		// release whatever is still owned
 		for (size_t n = 0; n < s.nodes.size(); n++)
@@ -467,6 +513,8 @@ struct C18 : Property
 			s.destroyed_by.assign(nn, -1);
 			s.freed_returns.assign(nn, 0);
 			s.owned.assign((size_t)nthreads, std::vector<int>(nn, 0));
+			s.held.assign((size_t)nthreads, std::vector<int>(nn, 0));
+			s.in_priv.assign(nn, false);
 			s.script.assign((size_t)nthreads, {});
 			for (auto &op : p.ops)
 			{
@@ -479,7 +527,7 @@ struct C18 : Property
 						s.owned[(size_t)t][n] = (int)((op.arg(1 + (n % np)) + (int64_t)n + t) % 2); // some threads also hold a child
 				}
 				else if (op.kind == "t")
-					s.script[(size_t)t].push_back({(int)(op.arg(1) % 4), (int)(op.arg(2) % (int64_t)nn)});
+					s.script[(size_t)t].push_back({(int)(op.arg(1) % 6), (int)(op.arg(2) % (int64_t)nn)});
 			}
 			// every parent must be owned by somebody: thread 0 takes one reference of otherwise unowned parents
 			for (size_t n = 0; n < np; n++)
@@ -587,7 +635,7 @@ struct C18 : Property
 				if (s.destroyed[n] != 1)
 					ctx.fail(s.destroyed[n] == 0 ? "C18:never-destroyed" : "C18:destroyed-twice", "node %zu: every reference was released but its destruction callback ran %d time(s) (lost update on the counter)", n,
 					         s.destroyed[n]);
-				if (s.parent_of[n] < 0 ? s.freed_returns[n] != 1 : s.freed_returns[n] > 1)
+				if (s.parent_of[n] < 0 && !s.in_priv[n] ? s.freed_returns[n] != 1 : s.freed_returns[n] > 1)
 					ctx.fail("C18:put-return-mismatch", "node %zu: %d call(s) of json_object_put by the threads returned 1 (a node dies once: exactly one for a parent, at most one for a child)", n,
 					         s.freed_returns[n]);
 				if (s.destroyed_by[n] > 1)
@@ -604,6 +652,10 @@ struct C18 : Property
 				ctx.probe("W1.switch_inside_put_before_destroy");
 			if (s.retagged)
 				ctx.probe("W1.owner_replaces_userdata_before_its_put");
+			if (s.readded)
+				ctx.probe("W1.same_node_readded_to_private_container");
+			if (s.copied)
+				ctx.probe("W1.deep_copy_of_shared_node");
 			ctx.cover("W1|threads" + std::to_string(nthreads) + "|nodes" + std::to_string(s.nodes.size()));
 		}
 		else if (workload == 4)
